@@ -584,6 +584,16 @@ def execute(case):
     if bad:
       return res.violate('%s after %s + %r; source:\n%s' % (bad, what, case.get('late'), src), law='reported-args', after=after, **sigd)
     res.label('after:' + after)
+    # the copy is independent: binding an argument on a scratch copy of it must not change what the original reports
+    if is_fn and model.named:
+      probe_name = model.named[len(case.get('late') or []) % len(model.named)]
+      scratch = _run(lambda: obj.clone(deep=(after == 'deepclone')))
+      if scratch[0] == 'ok':
+        _run(lambda: scratch[1].rebind(**{probe_name: 'probe'}))
+        _run(lambda: delattr(scratch[1], model.named[0]))
+        bad = check_reported(obj, 'the original (after its clone was re-bound)')
+        if bad:
+          return res.violate('%s; %s + %r; source:\n%s' % (bad, what, case.get('late'), src), law='clone-shares-bookkeeping', **sigd)
 
   if not is_fn:
     rc = model.reference_call(ref_callable, model.spec, model.rest)
